@@ -65,7 +65,8 @@ def check_variant(prog, variant, m, text0=None):
             # the original itself disagrees with the reference.  If the variant agrees
             # with it, the result depends on order / naming: C07's business.  If both
             # disagree (or the deviation is a recorded engine quirk) it is C01/C02's.
-            if st0 == 'fail' and ':quirk:' not in (b0 or ''):
+            if st0 == 'fail' and ':quirk:' not in (b0 or '') and \
+                    not (b0 or '').startswith('rejected_valid'):   # a refusal is C01's (D11)
                 st2, b2, d2 = common.compiled_vs(cols, exp, text2, pred2, rules2,
                                                  quirk_prog=None, cols_any_order=True,
                                                  info=i2)
